@@ -198,6 +198,15 @@ def run_case(c):
         out['mp'] = try_(lambda: private(copy.deepcopy(model)))[0]
         out['mp_eval'] = try_(lambda: private(copy.deepcopy(model), eval_mode=True))[0]
         out['mp_foreign'] = try_(lambda: private(copy.deepcopy(model), foreign=True))[0]
+        # an ALREADY WRAPPED module handed to make_private is validated like any other
+        def prewrapped(eval_mode):
+            mm = copy.deepcopy(model)
+            g = GradSampleModule(mm, strict=False)
+            if eval_mode:
+                g.eval()
+            return private(g)
+        out['mp_prewrapped'] = try_(lambda: prewrapped(False))[0]
+        out['mp_prewrapped_eval'] = try_(lambda: prewrapped(True))[0]
         # fix
         kw = c.get('kw', {})
         st, fixed = try_(lambda: ModuleValidator.fix(model, **kw))
